@@ -123,6 +123,9 @@ def model(cfg):
     """('fail',) | ('select', acceptable names, unknown_reported)"""
     env, pre, load = cfg["env"], cfg["pre"], cfg["load"]
     if pre:
+        derived = [n for n in pre if n in ("zkifbellman", "zkifbulletproofs")]
+        if len(derived) > 1:
+            return ("select", [derived[-1]], False)
         return ("select", list(pre), False)
     if env is not None and env in NAMES:
         if loadable(env, load):
@@ -238,8 +241,8 @@ def all_configs():
         for pre in pres:
             for load in loads:
                 derived = [n for n in pre if n in ("zkifbellman", "zkifbulletproofs")]
-                if len(derived) > 1:
-                    continue      # two conflicting field switches of one base module: not a defined configuration
+                # (two derived modules of one base, in either import order: the one imported last set the field last and is the
+                # backend in effect - the name / module / field consistency below decides)
                 if not pre and not load["libsnark"] and not load["qaptools"]:
                     out.append({"env": env, "pre": pre, "load": dict(load, qaptools="noexec")})
                 if all(loadable(n, load) for n in pre):
